@@ -180,8 +180,12 @@ func Fixture(path string) []byte {
 // Symbolic reports whether the harness runs under the symbolic executor.
 func Symbolic() bool { return false }
 
-// Begin marks the start of the call under test (pre-state ends here).
-func Begin() {}
+// Begin marks the start of the calls under test; everything reachable from roots is pre-state.
+func Begin(roots ...interface{}) {}
+
+// AssertReadOnly: no store since Begin hit an object of the pre-state (decided by the executor's
+// write log; natively a no-op: replay of such a finding is by the race detector, see DESIGN.md C19).
+func AssertReadOnly(label string) {}
 
 func Observe(name string, v uint64)     { fmt.Printf("VSYM-OBS %s=%d\n", name, v) }
 func ObserveBytes(name string, b []byte) { fmt.Printf("VSYM-OBS %s=%s\n", name, hex.EncodeToString(b)) }
